@@ -156,6 +156,10 @@ contract("monkeytype.typing:shrink_types", props=["C04", "C05", "C06", "C01"], t
          # C05: the literal Any is produced only for the empty input
          any_only_if="len(types) == 0")
 
+contract("monkeytype.typing:_is_typed_dict_field_name", props=["C12", "C06"], theories=TH, params={"key": "str"}, result="bool",
+         # a key that can be written as a field of a TypedDict class and read back unchanged: an identifier, no keyword, not name-mangled, NFKC-normal (the four text predicates are uninterpreted)
+         ensures={"post:def": "result == (is_identifier(key) and not is_keyword(key) and not prefixof('__', unboxs(key)) and nfkc_(key) is key)"})
+
 _KOK = "(max_typed_dict_size is None or max_typed_dict_size >= 0)"
 contract("monkeytype.typing:get_dict_type", props=["C04", "C05", "C06", "C03"], theories=TH,
          params={"dct": "Val", "max_typed_dict_size": "Opt[int]"}, result="Ty", scc="infer", decreases=["size(dct)", "0"],
@@ -169,7 +173,7 @@ contract("monkeytype.typing:get_dict_type", props=["C04", "C05", "C06", "C03"], 
                                   " and len(td_opt(result)) == 0 and forall(dct, lambda k: is_strval(k) and has(td_req(result), k)) and forall(td_req(result), lambda k: has(dct, k)))",
                   "post:td-disabled": "implies(max_typed_dict_size is not None and max_typed_dict_size <= 0, kind(result) is not K_TD)",
                   # C12: a TypedDict is only built from keys that can be written as fields of a class (identifiers, not keywords)
-                  "post:td-field-names": "implies(kind(result) is K_TD, forall(dct, lambda k: is_identifier(k) and not is_keyword(k)))",
+                  "post:td-field-names": "implies(kind(result) is K_TD, forall(dct, lambda k: is_identifier(k) and not is_keyword(k) and not prefixof('__', unboxs(k)) and nfkc_(k) is k))",
                   "post:empty-dict": "implies(len(dct) == 0, result is Dict_(ANY, ANY))",
                   "post:td-size-deep": "td_okd(result, max_typed_dict_size)",
                   "post:kind": "kind(result) is K_Dict or kind(result) is K_TD"},
